@@ -979,8 +979,9 @@ class Analyzer:
             vals = [tmp[x] for x in (c[1], c[2]) if x in tmp]
             if vals:
                 out = vals[0]
+                f_ = self.symlo(env)
                 for x in vals[1:]:
-                    out = join(out, x)
+                    out = join(out, x, f_, f_)
                 return out
             cv = self.ev(env, c[0])
             et = self.refine(env.copy(), c[0], True)
